@@ -28,7 +28,7 @@ fn crash_cfg(prop: &str, seed: u64, index: u64) -> HistCfg {
         nops: 15 + rng.usize_below(90),
         two_parts: false,
         fat32: Some(fat32),
-        max_spc: *rng.pick(&[1u32, 1, 2, 4]),
+        max_spc: if edge { *rng.pick(&[2u32, 8, 16, 32, 64]) } else { *rng.pick(&[1u32, 1, 2, 4, 4, 16]) },
         recipe: *rng.pick(&[Recipe::Small, Recipe::Rich, Recipe::Empty]),
         leave_free: if edge { Some((*rng.pick(&[0u32, 1, 2, 3]), rng.below(3) as u32)) } else if rng.chance(1, 3) { Some((*rng.pick(&[2u32, 6, 30]), rng.below(3) as u32)) } else { None },
         force_two_fats: false,
@@ -73,6 +73,10 @@ pub fn one_history(prop: &str, cfg: &HistCfg, library_every: usize, rep: &mut Re
     let mut rng = Rng::from_parts(&[cfg.seed, cfg.index, 0x0b5]);
     for op in e.setup_ops(&mut rng) {
         e.step(op);
+    }
+    if cfg.full_dir {
+        // (refused harmlessly where the image has no such directory)
+        e.step(super::ops::Op::OpenDir { fl: crate::vm::Fl::Raw, parent: 0, name: "FULLDIR".into(), ds: 1 });
     }
     for _ in 0..cfg.nops {
         if e.aborted {
@@ -138,6 +142,10 @@ pub fn one_history(prop: &str, cfg: &HistCfg, library_every: usize, rep: &mut Re
             let (out, _w) = fatref::fsck(&snap, &[], FsckMode::Crash);
             if let Some(f) = out.findings.iter().find(|f| C10_RULES.contains(&f.rule)) {
                 rep.violate(Violation::new("C10", c10_rule_id(f.rule), opkind, &format!("crash after write #{} of the call", ord_in_op), format!("crash image {}/{} ({}): {}: {}", k, n, opdesc, f.path, f.detail), mk_case(&case)));
+                return;
+            }
+            if let Some((p, blk, off)) = out.junk_in_extent.first() {
+                rep.violate(Violation::new("C10", "C10.junk-exposed", opkind, &format!("behind the end marker, crash after write #{} of the call", ord_in_op), format!("crash image {}/{} ({}): a cluster of directory '{}' still holds uninitialised contents (block {} offset {}), reachable by a block-by-block lookup", k, n, opdesc, p, blk, off), mk_case(&case)));
                 return;
             }
             if let Some((p, blk, off)) = out.junk_exposed.first() {
